@@ -174,12 +174,38 @@ def oracle_file(text, reserved):
     return findings, regions
 
 
+
+def oracle_var_order(text):
+    """independent oracle for 'process variable written before read': inside every PROCESS the first
+    textual occurrence of each declared VARIABLE in the statement part must be the target of a `:=`
+    (the exporter emits straight-line code + IF/CASE that assign a target in every branch)."""
+    out = []
+    src = strip_comments(text)
+    for m in re.finditer(r"(?is)(?:([A-Za-z]\w*)\s*:\s*)?\bPROCESS\b(.*?)\bEND\s+PROCESS\b", src):
+        body = m.group(2)
+        b = re.search(r"(?i)\bBEGIN\b", body)
+        if not b:
+            continue
+        decls, stm = body[:b.start()], body[b.end():]
+        for v in re.findall(r"(?i)\bVARIABLE\s+(\w+)\s*:", decls):
+            o = re.search(r"(?i)(?<![A-Za-z0-9_])%s(?![A-Za-z0-9_])" % re.escape(v), stm)
+            if not o:
+                continue
+            rest = stm[o.end():].lstrip()
+            if not rest.startswith(":="):
+                line = stm[stm.rfind("\n", 0, o.start()) + 1: (stm.find("\n", o.start()) if stm.find("\n", o.start()) >= 0 else len(stm))].strip()
+                out.append(dict(kind="var-read-before-write", name=v, region=f"process {m.group(1) or ''}", what=line[:120]))
+    return out
+
+
 def oracle_case(case_dir, reserved):
     findings, regions, units = [], [], []
     files = sorted(Path(case_dir).glob("*.vhd"))
     # packages first (same order rule as the checker; irrelevant for the oracle's verdict)
     for f in files:
-        fi, rg = oracle_file(f.read_text(errors="replace"), reserved)
+        txt = f.read_text(errors="replace")
+        fi, rg = oracle_file(txt, reserved)
+        fi += oracle_var_order(txt)
         for x in fi:
             x["file"] = f.name
         findings += fi
@@ -236,6 +262,18 @@ def gen_design_cases(rng, reserved, tier):
         kv = {r: rng.choice(mixpool) for r in roles}
         kv["shape"] = shape
         cases.append(dict(id=f"mix{k}", mode=rng.choice(modes), kv=kv, cls="seeded-mix-" + shape, expect="ok"))
+    # forward-declared signals read before they are assigned (statement scheduling of the exporter)
+    lnames = ["sel", "Sel", "late", "t", "x_mux1", "a_mux1", "v_x", "V_X_MUX1", "s_t", "unnamed", "process", "variable", "if"]
+    nlate = 3 if tier == "quick" else 20
+    for lv in range(10):
+        for nm in (0, 1):
+            for rep_ in range(nlate if (lv, nm) != (0, 0) else nlate + 2):
+                kv = {"shape": "late", "lv": str(lv), "nm": str(nm)}
+                if rep_ > 0:
+                    for r in ["pi0", "pi1", "pi2", "pi3", "pi4", "pi5", "po0", "sg1", "sg2", "ar0", "ar1", "ent0"]:
+                        if rng.random() < 0.6:
+                            kv[r] = rng.choice(lnames + rng.sample(pool, 2))
+                cases.append(dict(id=f"late{lv}_{nm}_{rep_}", mode="SE"[rep_ % 2], kv=kv, cls=f"late-assigned-lv{lv}", expect="ok"))
     # tiny cases with predicted port names (tie B)
     ntiny = 30 if tier == "quick" else 200
     for k in range(ntiny):
@@ -452,8 +490,11 @@ def main():
         "follow it (process labels of a BLOCK are allocated before the enclosing entity's pins/signals; root-scope clock "
         "names after all entities) - only per-region uniqueness is claimed for the files, an inner declaration hiding an "
         "outer one is counted (evidence: shadowing) and a use captured by such a label is an error of the checker",
-        "declared-before-use, width agreement and variable-written-before-read are executable Gallina checks WITHOUT a "
-        "soundness theorem; widths are compared only for `target <= name | conv(name) | literal` and port associations of "
+        "declared-before-use and width agreement are executable Gallina checks WITHOUT a soundness theorem; "
+        "variable-written-before-read: the must-assign analysis over the process flow skeleton is proved sound for all control "
+        "paths (flow_sound, check_design_flows_sound), but the extraction of that skeleton from the tokens (which identifiers are "
+        "variable reads/writes, where IF/ELSIF/ELSE/CASE/WHEN branches start) is the scanner's reading and is trusted; an indexed "
+        "assignment v(i) := e does not count as a write; loops and wait statements are not handled (the exporter emits none); widths are compared only for `target <= name | conv(name) | literal` and port associations of "
         "those forms (other expressions: width not inferred); formals are checked against the entity's port list only "
         "when the entity is part of the export; CASE/IF dataflow is must-assign over straight-line+IF/CASE code",
         "function bodies of the fixed GateryHelperPackage are skipped by the scanner; testbench files, constraint files "
@@ -540,7 +581,7 @@ def main():
                 dl = [d.lower() for d in declared]
                 changed = 0
                 for role, name in c["kv"].items():
-                    if role in ("shape", "ipc"):
+                    if role in ("shape", "ipc", "lv", "nm"):
                         continue
                     nl = name.lower()
                     hit = [d for d in dl if nl in d]
